@@ -141,6 +141,7 @@ class C09(CheckBase):
         data2, _ = ntv2_writer.build(spec2, lambda k, r, cc: (2.5 - 0.5 * r + 0.25 * cc, 1.0 + 0.125 * r * cc, 0.03, 0.04))
         self.fs.put('/sim/alt.gsb', data2)
         env.ntv2reader.open = self.fs.open
+        self.fs.install_os_seam(env.ntv2reader)
         env.grid_factory = lambda which='std': env.ntv2reader.read_ntv2_file('/sim/%s.gsb' % which)
         # write barrier
         self.barrier_hits = []
